@@ -234,3 +234,62 @@ CANON = {
     "parent_elsewhere": [rec(hh=0), rec(hh=1, age=24, e1=1), rec(hh=1, e2=0)],
     "spouses_apart": [rec(hh=0, spouse=2, gv=True), rec(hh=1, spouse=1, gv=True)],
 }
+
+
+def rich_core(date, rnd, pid_base=1000, hh_base=500):
+    """A fixed set of households in which every default target is positive for somebody, whatever the seed draws elsewhere:
+    a single parent with small children and too little alimony (Unterhaltsvorschuss, Kinderzuschlag / ALG II range), a one-earner
+    family with a baby (Elterngeld, Kindergeld, taxes, contributions), a pensioner couple (pensions, Grundsicherung range), an
+    unemployed single (ALG I), a low-wage couple (Wohngeld / ALG II range), a self-employed person with capital income."""
+    year = gs.year_of(date)
+    structs = [CANON["single_parent_2"], CANON["family_3"], CANON["couple_married"], CANON["single"], CANON["couple_unmarried"], CANON["single"], CANON["single"]]
+    r0 = __import__("random").Random(12345)       # the core does not depend on the caller's seed
+    P = []
+    pb, hb = pid_base, hh_base
+    for s in structs:
+        P.append(dress(s, date, r0, pid_base=pb, hh_base=hb))
+        pb += len(s)
+        hb += 1 + max(r["hh"] for r in s)
+
+    def setp(q, **kw):
+        q.update(kw)
+        if "alter" in kw:
+            q["geburtsjahr"] = year - kw["alter"]
+
+    base = {"rentner": False, "voll_erwerbsgemind": False, "teilw_erwerbsgemind": False, "eink_vermietung_m": 0.0, "eink_selbst_m": 0.0, "kapitaleink_brutto_m": 0.0, "sonstig_eink_m": 0.0,
+            "vermögen_bedürft": 0.0, "in_priv_krankenv": False, "arbeitssuchend": False, "selbstständig": False, "priv_rente_m": 0.0, "elterngeld_claimed": False, "monate_elterngeldbezug": 0}
+    for grp in P:
+        for q in grp:
+            q.update(base)
+            if q["alter"] >= 18:
+                q["jahr_renteneintr"] = q["geburtsjahr"] + 67
+    sp, fam, old, unemp, low, selfe, dis = P
+    import datetime as _dt
+
+    birth = _dt.date.fromisoformat(date) - _dt.timedelta(days=100)      # the baby of the family is 100 days old
+    setp(dis[0], alter=48, bruttolohn_m=0.0, arbeitsstunden_w=0.0, kind=False, rentner=True, voll_erwerbsgemind=True, m_pflichtbeitrag=240.0, entgeltp_west=22.0, entgeltp_ost=0.0)
+    dis[0]["jahr_renteneintr"] = year - 2
+    setp(sp[0], alter=34, bruttolohn_m=1400.0, bruttolohn_vorj_m=1400.0, arbeitsstunden_w=30.0, alleinerz=True, kind=False)
+    for q, a in zip(sp[1:], (3, 9)):
+        setp(q, alter=a, kind=True, bruttolohn_m=0.0, kind_unterh_anspr_m=300.0, kind_unterh_erhalt_m=100.0, in_ausbildung=a >= 6, p_id_kindergeld_empf=sp[0]["p_id"], betreuungskost_m=150.0)
+    setp(fam[0], alter=36, bruttolohn_m=3200.0, bruttolohn_vorj_m=3100.0, arbeitsstunden_w=40.0, kind=False)
+    setp(fam[1], alter=33, bruttolohn_m=0.0, bruttolohn_vorj_m=2400.0, arbeitsstunden_w=0.0, kind=False, elterngeld_claimed=True, monate_elterngeldbezug=4, elterngeld_nettoeinkommen_vorjahr_m=1700.0)
+    for q, a in zip(fam[2:], (0, 4, 8)):
+        setp(q, alter=a, kind=True, bruttolohn_m=0.0, in_ausbildung=a >= 6, p_id_kindergeld_empf=fam[0]["p_id"])
+    fam[2].update({"geburtsjahr": birth.year, "geburtsmonat": birth.month, "geburtstag": birth.day})
+    for q in fam[:2]:
+        q["elterngeld_zu_verst_eink_vorjahr_y_sn"] = 30000.0
+    for q, a, ep in zip(old, (72, 69), (38.0, 9.0)):
+        setp(q, alter=a, rentner=True, bruttolohn_m=0.0, arbeitsstunden_w=0.0, entgeltp_west=ep, entgeltp_ost=0.0, kind=False, priv_rente_m=50.0, grundr_zeiten=420, grundr_bew_zeiten=420, grundr_entgeltp=ep * 0.6)
+        q["jahr_renteneintr"] = q["geburtsjahr"] + 65
+    setp(unemp[0], alter=45, bruttolohn_m=0.0, bruttolohn_vorj_m=2800.0, arbeitsstunden_w=0.0, arbeitssuchend=True, anwartschaftszeit=True, sozialv_pflicht_5j=60.0, m_durchg_alg1_bezug=2.0, kind=False)
+    setp(low[0], alter=29, bruttolohn_m=1150.0, bruttolohn_vorj_m=1100.0, arbeitsstunden_w=25.0, kind=False)
+    setp(low[1], alter=27, bruttolohn_m=520.0, bruttolohn_vorj_m=500.0, arbeitsstunden_w=12.0, kind=False)
+    setp(selfe[0], alter=50, bruttolohn_m=0.0, eink_selbst_m=3500.0, selbstständig=True, kapitaleink_brutto_m=900.0, eink_vermietung_m=400.0, kind=False, arbeitsstunden_w=40.0)
+    out = [q for grp in P for q in grp]
+    for q in out:
+        q["bruttokaltmiete_m_hh"] = {1: 420.0}.get(0, 520.0)
+        q["heizkosten_m_hh"] = 70.0
+        q["wohnfläche_hh"] = 70.0
+        q["bewohnt_eigentum_hh"] = False
+    return out
